@@ -126,12 +126,12 @@ func GenConfig(t *sim.Tape, o GenOpts) Config {
 	case 1:
 		n = 2
 	case 2:
-		n = t.Range(3, min(4, o.MaxChain))
+		n = 3 + t.Intn(2)
 	case 3:
-		n = t.Range(min(5, o.MaxChain), o.MaxChain)
+		n = 5 + t.Intn(4)
 	}
 	if n > o.MaxChain {
-		n = o.MaxChain
+		n = 1 + (n-1)%o.MaxChain
 	}
 	parts := make([]string, n)
 	for i := range parts {
@@ -305,7 +305,27 @@ func GenData(shape string, n int, seed uint64) []byte {
 		}
 	case "exe":
 		// ELF-like header followed by x86-ish code: call/jmp rel32 with clustered targets
-		b = append(b, 0x7F, 'E', 'L', 'F', 2, 1, 1, 0, 0, 0, 0, 0, 0, 0, 0, 0)
+		// executable-looking header (fields are arbitrary: a header is data, not a promise)
+		switch r.Intn(6) {
+		case 0:
+			b = append(b, 0x7F, 'E', 'L', 'F', 2, 1, 1, 0, 0, 0, 0, 0, 0, 0, 0, 0)
+		case 1:
+			b = append(b, 0x7F, 'E', 'L', 'F', 1, 1, 1, 0, 0, 0, 0, 0, 0, 0, 0, 0)
+		case 2:
+			b = append(b, 0x7F, 'E', 'L', 'F', 2, 2, 1, 0, 0, 0, 0, 0, 0, 0, 0, 0)
+		case 3:
+			b = append(b, 'M', 'Z', 0x90, 0, 3, 0, 0, 0, 4, 0, 0, 0, 0xFF, 0xFF, 0, 0)
+		case 4:
+			b = append(b, 0xCF, 0xFA, 0xED, 0xFE, 7, 0, 0, 1, 3, 0, 0, 0, 2, 0, 0, 0)
+		default:
+			b = append(b, 0xFE, 0xED, 0xFA, 0xCE, 0, 0, 0, 7, 0, 0, 0, 3, 2, 0, 0, 0)
+		}
+		if r.Intn(2) == 0 {
+			// plausible small header fields
+			for len(b) < 96 && len(b) < n {
+				b = append(b, byte(r.Intn(4)*r.Intn(64)))
+			}
+		}
 		for len(b) < n {
 			switch r.Intn(6) {
 			case 0:
